@@ -706,7 +706,7 @@ pub fn run_inner(tier: Tier, seed: u64) -> i32 {
         }
     }
     ctx.finish(&check_case, RULE, ASSUMPTIONS, &|l| {
-        for k in ["failed_or_recovered_inside_a_wrapper", "multi_byte_input", "empty_input", "byte_input", "nested_input", "nested_inner_parse_failed", "text_strings_multi_byte", "recovered", "accepted", "rejected"] {
+        for k in ["pratt_chain_runs", "left_recursive_parses_that_returned", "failed_or_recovered_inside_a_wrapper", "multi_byte_input", "empty_input", "byte_input", "nested_input", "nested_inner_parse_failed", "text_strings_multi_byte", "recovered", "accepted", "rejected"] {
             if l.counters.get(k).copied().unwrap_or(0) == 0 {
                 return Err(format!("class '{}' is empty", k));
             }
